@@ -178,8 +178,9 @@ class Multiplexer(ComplexDop):
 
         applicable_case: Optional[Union[MultiplexerCase, MultiplexerDefaultCase]] = None
         for mux_case in self.cases:
-            lower, upper = self._get_case_limits(mux_case)
-            if lower <= key_value and key_value <= upper:  # type: ignore[operator]
+            # note that the limits of a case may be unbounded
+            # (interval type INFINITE)
+            if mux_case.applies(cast(AtomicOdxType, key_value)):
                 applicable_case = mux_case
                 break
 
